@@ -332,3 +332,17 @@ pub fn any_set_of(elements: Vec<Matchable>) -> AnyNumberOf {
     any_number_of.max_times_per_element = Some(1);
     any_number_of
 }
+
+/// Verification hooks (only with `--cfg sqruff_verif`): read-only accessors.
+#[cfg(sqruff_verif)]
+impl AnyNumberOf {
+    pub fn verif_elements(&self) -> &[Matchable] {
+        &self.elements
+    }
+    pub fn verif_optional(&self) -> bool {
+        self.optional
+    }
+    pub fn verif_cache_key(&self) -> MatchableCacheKey {
+        self.cache_key
+    }
+}
